@@ -20,7 +20,7 @@ from ..worlds import sigs as WS
 
 PROP = 'C19'
 LEVEL = 'fault_enumeration'
-RUNS = {'quick': 320, 'thorough': 6400}
+RUNS = {'quick': 256, 'thorough': 5120}
 WORKER_ARGS = {'run_timeout': 400}
 EXHAUSTIVE = False   # crash points of each sampled write are enumerated completely; the space of writes is sampled
 
@@ -66,10 +66,20 @@ class NullCtx:
 # ---------------------------------------------------------------------------------------------
 # writers (run inside the forked child)
 
-def _write_dump(path, kind, arrays, k, prefix, dtype, ids, meta_kw, compression):
+def _write_dump(path, kind, arrays, k, prefix, dtype, ids, meta_kw, compression, srcpath=None):
 	from gambit.kmers import KmerSpec
-	from gambit.sigs.base import SignatureArray, SignatureList, AnnotatedSignatures, SignaturesMeta, dump_signatures
+	from gambit.sigs.base import SignatureArray, SignatureList, AnnotatedSignatures, SignaturesMeta, dump_signatures, load_signatures
 	kspec = KmerSpec(k, prefix)
+	kw = {} if compression is None else dict(compression=compression)
+	if kind in ('HDF5Source', 'AnnotatedHDF5'):
+		# re-saving a collection that is itself backed by a (complete) signature file
+		src = load_signatures(srcpath)
+		try:
+			coll = src if kind == 'HDF5Source' else AnnotatedSignatures(src, ids, SignaturesMeta(**meta_kw) if meta_kw is not None else None)
+			dump_signatures(path, coll, **kw)
+		finally:
+			src.close()
+		return 'done'
 	if kind.endswith('Array'):
 		base = SignatureArray(arrays, kspec, dtype=np.dtype(dtype))
 	else:
@@ -196,7 +206,7 @@ def scenario(ctx):
 		prefix = ch.pick(['ATGAC', 'A', 'GT', 'TTT'], 'prefix')
 		from gambit.kmers import index_dtype
 		dtype = str(np.dtype(index_dtype(k)))
-		kind = ch.pick(['SignatureArray', 'AnnotatedList', 'SignatureList', 'AnnotatedArray'], 'container')
+		kind = ch.pick(['SignatureArray', 'AnnotatedList', 'SignatureList', 'AnnotatedArray', 'HDF5Source', 'AnnotatedHDF5'], 'container')
 		n = ch.int(1, 12, 'n') if payload != 'huge' else ch.int(6, 8, 'n_huge')
 		universe = min(4 ** k, 2 ** 62)
 		maxsize = dict(small=300, large=60000, huge=220000)[payload]
@@ -221,14 +231,26 @@ def scenario(ctx):
 				a = WS.random_set(rng, universe, size)
 			arrays.append(a.astype(dtype))
 		int_ids = ch.flip(0.35, 'int_ids')
-		if kind.startswith('Annotated'):
+		srcpath = None
+		if kind in ('HDF5Source', 'AnnotatedHDF5'):
+			# the source file: complete, with its own ids and metadata (written here, in the parent, before any crash run)
+			from gambit.kmers import KmerSpec as _KS
+			from gambit.sigs.base import SignatureArray as _SA, AnnotatedSignatures as _AS, SignaturesMeta as _SM, dump_signatures as _dump
+			srcpath = os.path.join(ctx.scratch, 'source.gs')
+			src_ids = np.array([f'src-{i}' for i in range(n)], dtype=object)
+			src_meta = dict(id='source-file', name='the source', version='9', id_attr='genbank_acc', description='older description', extra={'from': 'source'})
+			_dump(srcpath, _AS(_SA(arrays, _KS(k, prefix), dtype=np.dtype(dtype)), src_ids, _SM(**src_meta)))
+		if kind == 'HDF5Source':
+			ids, meta_kw = None, src_meta
+			exp_ids = list(src_ids)
+		elif kind.startswith('Annotated'):
 			ids = np.array([1000 + 3 * i for i in range(n)], dtype=np.int64) if int_ids else np.array([f'génome/{i}' if i % 3 == 0 else f'id{i}' for i in range(n)], dtype=object)
 			meta_kw = _meta(rng)
 			exp_ids = [x.item() if hasattr(x, 'item') else x for x in ids]
 		else:
 			ids, meta_kw = None, None
 			exp_ids = list(range(n))
-		fn, args = _write_dump, (path, kind, arrays, k, prefix, dtype, ids, meta_kw, compression)
+		fn, args = _write_dump, (path, kind, arrays, k, prefix, dtype, ids, meta_kw, compression, srcpath)
 		expected = dict(k=k, prefix=prefix, n=n, dtype=dtype, arrays=[(str(a.dtype), a.tobytes()) for a in arrays], ids=exp_ids, meta=_expected_meta(meta_kw))
 		desc = f'dump_signatures {kind} n={n} k={k} {dtype} {payload} compression={compression} target={pre}'
 		shape = (kind, compression, payload, pre, 'dump')
